@@ -234,7 +234,8 @@ func New(active, inactive time.Duration, ch chan *entities.Message, workers int)
 // Variant 0 is Elements(); 1 names the destination node's end-time element before the source
 // node's; 2 reverses the statistics lists (the throughput lists are positional - forward first,
 // reverse second - and stay as they are); 3 does both. Bit 4 adds httpVals to the non-statistics
-// elements (every record must then carry it).
+// elements (every record must then carry it). Bit 8 makes every list a part of one long list (spare
+// capacity behind each).
 func ElementsVariant(v int) *intermediate.AggregationElements {
 	e := Elements()
 	rev := func(a []string) []string {
@@ -254,6 +255,23 @@ func ElementsVariant(v int) *intermediate.AggregationElements {
 	if v&4 != 0 {
 		// as Antrea's flow aggregator configures it: the HTTP values of a flow are merged as well
 		e.NonStatsElements = append([]string{"httpVals"}, e.NonStatsElements...)
+	}
+	if v&8 != 0 {
+		// an application that keeps all its element names in one list and hands out parts of it:
+		// every list has spare capacity, and what lies behind it is the next list
+		lists := []*[]string{&e.NonStatsElements, &e.StatsElements, &e.AggregatedSourceStatsElements, &e.AggregatedDestinationStatsElements,
+			&e.AntreaFlowEndSecondsElements, &e.ThroughputElements, &e.SourceThroughputElements, &e.DestinationThroughputElements}
+		var all []string
+		for _, l := range lists {
+			all = append(all, *l...)
+		}
+		all = append(all, "spare", "spare", "spare", "spare")[:len(all)]
+		off := 0
+		for _, l := range lists {
+			n := len(*l)
+			*l = all[off : off+n]
+			off += n
+		}
 	}
 	return e
 }
